@@ -8,7 +8,7 @@ from .. import AnalysisError
 from ..grammar import (ModelParseError, ModelParser, extract_parser_table, flatten,
                        show)
 from ..oracles import (DENOT, SYMBOL_TO_NODE, NotShared, ast_ops,
-                       py_prec_crosscheck, py_tree)
+                       py_prec_crosscheck, py_tree, slice_meaning)
 from ..summary import NODE, summarize
 
 PARSER = "pymbolic.parser"
@@ -71,8 +71,9 @@ def run(ctx):
                "(thorough) skeletons; lexer token priority; whole-input rule; "
                "argument lists; Python-AST importer operator maps")
     ctx.decline("evaluation equality itself (tree agreement + C02)")
-    ctx.assume("comparison chains (a < b < c) are outside the shared syntax: "
-               "pymbolic's node set cannot express them")
+    ctx.assume("a comparison chain a < b < c means (a < b) and (b < c) (language "
+               "reference 6.10); evaluating the shared operand twice gives the "
+               "same value because operands have no side effects")
     ctx.assume("reference grouping = ast.parse of the running interpreter "
                "(the interpreter pymbolic runs under), cross-checked against a "
                "frozen copy of the language-reference precedence table")
@@ -96,7 +97,7 @@ def run(ctx):
                    f"'{s}': Python parses it as {show(ref)} but the parser "
                    f"rejects it ({e})", {"skeleton": s})
             return False
-        ok = flatten(got) == flatten(ref)
+        ok = slice_meaning(flatten(got)) == slice_meaning(flatten(ref))
         ctx.ob(key, ok, loc,
                f"'{s}' groups as in Python" if ok else
                f"'{s}': parser builds {show(got)}, Python groups it as "
@@ -157,7 +158,7 @@ def run(ctx):
     _check_lexer(ctx, ptab, parser)
     _check_whole_input(ctx, model)
     _check_arglist(ctx, model)
-    check_importer(ctx, model, "C07")
+    check_importer(ctx, model, "C07", parser)
 
 
 def _explained(s, parser, two_fail):
@@ -418,7 +419,58 @@ def _ctor_name(v):
     return None
 
 
-def check_importer(ctx, model, prop):
+def _judge_map_compare(pss, rec_attr):
+    """True, or what is wrong.  Python: a op1 b op2 c == (a op1 b) and (b op2 c)."""
+    TABLE = ("self", "comparison_op_map")
+    OPS = ("attr", NODE, "ops")
+    COMPS = ("attr", NODE, "comparators")
+    if not pss:
+        return "never returns"
+    for ps in pss:
+        rv = ps.retval
+        # the single-operator form: fails (or mis-reads) every chain
+        if _ctor_name(rv) == "Comparison":
+            return ("builds one Comparison from the first operator and "
+                    "comparator only: 'a < b < c' (two operators, two "
+                    "comparators) is refused or truncated")
+        if not (rv[0] == "ifexp" and len(rv) == 4):
+            raise AnalysisError(f"map_Compare: result not understood: {rv}")
+        cond = getattr(rv[1], "val", None)
+        single, many = rv[2], rv[3]
+        if not (isinstance(cond, tuple) and cond[0] == "compare"
+                and cond[1] == ("Eq",) and cond[2][0] == "len"
+                and cond[3] == (("const", 1),)
+                and single == ("index", cond[2][1], 0)):
+            raise AnalysisError("map_Compare: expected '<links>[0] if "
+                                f"len(<links>) == 1 else ...', got {rv[1]}")
+        links = cond[2][1]
+        if _ctor_name(many) != "LogicalAnd":
+            return (f"joins the links of a chain with {_ctor_name(many)}, "
+                    "Python's meaning is their conjunction")
+        arg = many[2][0] if len(many[2]) == 1 else None
+        if not (isinstance(arg, tuple) and arg[0] == "seq"
+                and arg[2:] == links[2:]) and arg != ("copy", links):
+            return "does not join all links in order"
+        if not (links[0] == "seq" and not links[4]):
+            raise AnalysisError(f"map_Compare: links not understood: {links}")
+        el, src = links[2], links[3]
+        operands = [("rec", ("attr", NODE, "left"), True, ()),
+                    ("seq", "list", ("rec", ("elem", COMPS), True, ()), COMPS, ())]
+        O = ("binop", "Add", ("lit", "list", (operands[0],)), operands[1])
+        TAIL = ("slice", O, ("const", 1), None)
+        if src != ("zip", (O, OPS, TAIL)):
+            return ("does not pair (operand i, operator i, operand i+1) over "
+                    "[left] + comparators")
+        want = ("call", el[1], (("elem", O),
+                                ("index", TABLE, None, ("typeof", ("elem", OPS))),
+                                ("elem", TAIL)), ())
+        if _ctor_name(el) != "Comparison" or el != want:
+            return ("a link is not Comparison(operand i, table[type(operator "
+                    "i)], operand i+1)")
+    return True
+
+
+def check_importer(ctx, model, prop, parser=None):
     m = model.repo.module(IAST)
     cls = model.cls(f"{IAST}:ASTToPymbolic")
     nt = model.nodes
@@ -489,6 +541,65 @@ def check_importer(ctx, model, prop):
                f"operator is '{sym}'")
     ctx.floor("comparison_op_map entries", len(ct), 6)
 
+    # ---- coverage: every operator the text parser shares with Python ---------------
+    if parser is not None:
+        def accepted(skel):
+            try:
+                parser.parse(skel)
+                return True
+            except ModelParseError:
+                return False
+        bo_t, bo_loc = ({}, loc)
+        if "bool_op_map" in cls.members:
+            bo_t, bo_loc = table("bool_op_map")
+        n_shared = 0
+        for kind, tab, have, form in (
+                ("binop", ops["binop"], bt, "a {} b"),
+                ("unop", ops["unop"], ut, "{} a"),
+                ("cmpops", ops["cmpops"], ct, "a {} b"),
+                ("boolops", ops["boolops"], bo_t, "a {} b")):
+            for k, sym in sorted(tab.items()):
+                if not accepted(form.format(sym)):
+                    continue        # not in the shared syntax
+                n_shared += 1
+                ok = k in have
+                ctx.ob(f"T/importer/coverage/{k}", ok, cls.loc(),
+                       f"'{sym}' (ast.{k}) is mapped" if ok else
+                       f"the parser reads '{form.format(sym)}' but the importer "
+                       f"has no entry for ast.{k}: it raises NotImplementedError "
+                       "on Python's parse of the same string")
+        ctx.floor("operators shared by parser and Python", n_shared, 20)
+        # BoolOp(op, values) -> n-ary logical node over all mapped values
+        for k, v in sorted(bo_t.items()):
+            sym = ops["boolops"].get(k)
+            want = SYMBOL_TO_NODE.get(sym)
+            ok = isinstance(v, (ast.Attribute, ast.Name)) and \
+                ast.unparse(v).split(".")[-1] == want
+            ctx.ob(f"T/importer/bool_op_map/{k}", ok, bo_loc,
+                   f"ast.{k} ('{sym}') -> {want}" if ok else
+                   f"bool_op_map[ast.{k}] ('{sym}') is {ast.unparse(v)}, "
+                   f"expected {want}")
+        if bo_t:
+            owner, fn = model.require_method(f"{IAST}:ASTToPymbolic", "map_BoolOp")
+            ok = False
+            for ps in summarize(fn):
+                if ps.term != "return":
+                    continue
+                rv = ps.retval
+                arg = rv[2][0] if rv[0] == "call" and len(rv[2]) == 1 else None
+                ok = (rv[0] == "call" and len(rv) >= 5
+                      and rv[4] == ("index", ("self", "bool_op_map"), None,
+                                    ("typeof", ("attr", NODE, "op")))
+                      and isinstance(arg, tuple) and arg[0] == "seq"
+                      and arg[1] in ("tuple", "list")
+                      and arg[2] == ("rec", ("elem", ("attr", NODE, "values")),
+                                     True, ())
+                      and arg[3] == ("attr", NODE, "values") and not arg[4])
+            ctx.ob("T/importer/map_BoolOp", ok, owner.module.loc(fn),
+                   "table[type(op)](tuple of all mapped values, in order)" if ok
+                   else "map_BoolOp does not build the table's node over every "
+                   "mapped value in order")
+
     # ---- structural handlers ---------------------------------------------------------
     def ret_of(name):
         owner, fn = model.require_method(f"{IAST}:ASTToPymbolic", name)
@@ -504,17 +615,11 @@ def check_importer(ctx, model, prop):
            "IfExp(test, body, orelse) -> If(condition, then, else_)" if ok else
            "map_IfExp does not build If(rec(test), rec(body), rec(orelse))")
     owner, fn, pss = ret_of("map_Compare")
-    ok = bool(pss)
-    for ps in pss:
-        rv = ps.retval
-        ok = ok and _ctor_name(rv) == "Comparison" and rv[2][0] == rec_attr("left") \
-            and rv[2][2][0] == "rec" and "comparators" in str(rv[2][2]) \
-            and rv[2][1][0] == "index" and rv[2][1][1] == ("self",
-                                                          "comparison_op_map")
-    ctx.ob("T/importer/map_Compare", ok, owner.module.loc(fn),
-           "Comparison(rec(left), table[op], rec(comparator))" if ok else
-           "map_Compare does not build Comparison(rec(left), <table op>, "
-           "rec(right))")
+    verdict = _judge_map_compare(pss, rec_attr)
+    ctx.ob("T/importer/map_Compare", verdict is True, owner.module.loc(fn),
+           "each link Comparison(left, table[op], right) over the operands in "
+           "order; a chain becomes the conjunction of its links"
+           if verdict is True else f"map_Compare {verdict}")
     owner, fn, pss = ret_of("map_Attribute")
     ok = len(pss) == 1 and _ctor_name(pss[0].retval) == "Lookup" and \
         pss[0].retval[2] == (rec_attr("value"), ("attr", NODE, "attr"))
